@@ -447,6 +447,32 @@ pub fn run(ctx: &Ctx) -> i32 {
         acc.notes.insert("composite_key_entry_pass".into(), json!({"key_max_nodes": 2, "value_max_nodes": 3, "contexts": ["root", "sequence item (twice)", "mapping value", "second entry of a mapping that is a sequence item"], "option_vectors": no, "cases": a.evaluations}));
         acc = acc.merge(a);
     }
+    // composite keys of 3 nodes over leaf values (a variant, a nested sequence or a mapping inside a composite key)
+    {
+        let keys3: Vec<&Dyn> = by[3].iter().collect();
+        let vals1: Vec<&Dyn> = by[1].iter().collect();
+        let kopts = [SerOpts::default(), SerOpts { compact: true, ..SerOpts::default() }, SerOpts { indent: 4, ..SerOpts::default() }];
+        let (nk, nv, no) = (keys3.len() as u64, vals1.len() as u64, kopts.len() as u64);
+        let total = 2 * nk * nv * no;
+        let a = run_indexed(&p, total, |i| {
+            let o = kopts[(i % no) as usize];
+            let r = i / no;
+            let y = vals1[(r % nv) as usize];
+            let r = r / nv;
+            let x = keys3[(r % nk) as usize];
+            let entry = Dyn::Map(vec![(x.clone(), y.clone())]);
+            let val = if r / nk == 0 { entry } else { Dyn::Seq(vec![entry.clone(), entry]) };
+            Some(Case { val, opts: o, no_len: false })
+        });
+        acc.notes.insert("composite_key_3_nodes_pass".into(), json!({"cases": a.evaluations}));
+        acc = acc.merge(a);
+        // and every 4-node value as the key of one entry with an integer value (default options, compact)
+        let keys4: Vec<&Dyn> = by[4.min(max)].iter().collect();
+        let o4 = [SerOpts::default(), SerOpts { compact: true, ..SerOpts::default() }];
+        let a = run_indexed(&p, keys4.len() as u64 * 2, |i| Some(Case { val: Dyn::Map(vec![(keys4[(i / 2) as usize].clone(), Dyn::I64(7))]), opts: o4[(i % 2) as usize], no_len: false }));
+        acc.notes.insert("composite_key_4_nodes_pass".into(), json!({"cases": a.evaluations}));
+        acc = acc.merge(a);
+    }
     acc.samples.truncate(0);
     for v in by[max.min(4)].iter().step_by(by[max.min(4)].len() / 3 + 1) {
         acc.samples.push(json!({"value": format!("{:?}", v), "text": serde_saphyr::to_string(v).unwrap_or_default()}));
